@@ -925,6 +925,12 @@ func (ce *cenv) evalCall(e *CExpr) cvar {
 		return cvar{v: mkSelect(ce.st.H("ghost:"+e.Name+":"+e.Args[0].String(), arraySort(sortInt, sortInt)), x.toTerm(v.v, v.t)), t: mathInt}
 	case "cfbenc", "cfbdec", "bytesmatch":
 		return ce.evalCrypto(e)
+	case "pending":
+		// pending(ch): the channel is known to hold at least one element (ghost lower bound kept
+		// for a channel with a declared sole consumer)
+		argn(1)
+		v := ce.eval(e.Args[0])
+		return cvar{v: mkLt(mkInt(0), mkSelect(ce.st.H("ghost:chanmin", arraySort(sortInt, sortInt)), x.toTerm(v.v, v.t))), t: types.Typ[types.Bool]}
 	case "closed":
 		// closed(ch): the channel is known to be closed (ghost flag set by close(ch) and by a
 		// successful receive on a close-only channel)
